@@ -219,6 +219,16 @@ def run(ctx):
                 if e > err + 1e-9:
                     spec_fail.append(("pyscf_interface.chunked_cholesky", "Gram matrix reproduces the ERI matrix to within the threshold",
                                       {"atom": atom, "basis": basis, "max_error": err, "got_error": float(e), "nvec": int(Lc.shape[0])}))
+            # the same routine as the interface reaches it: generate_integrals with the user's threshold
+            # (identity basis, so the bound stays element-wise on the ERI matrix itself)
+            for err in (1e-3, 1e-8, 1e-10):
+                _, Lg, _, _ = pi.generate_integrals(mol, mol.intor("int1e_kin") + mol.intor("int1e_nuc"), np.eye(nao), chol_cut=err)
+                Lg = np.asarray(Lg).reshape(-1, nao * nao)
+                e = np.abs(Lg.T @ Lg - eri).max()
+                mol_cases += 1
+                if e > err + 1e-12:
+                    spec_fail.append(("pyscf_interface.generate_integrals", "Cholesky vectors produced for a requested threshold reproduce the ERI matrix to within that threshold",
+                                      {"atom": atom, "basis": basis, "chol_cut": err, "got_error": float(e), "nvec": int(Lg.shape[0])}))
     except ImportError:
         ctx.notes.append("pyscf not importable: chunked_cholesky not exercised")
 
